@@ -16,6 +16,7 @@ use crate::c04::mul_small;
 use crate::enc::NOISES;
 use crate::gad::*;
 use crate::sch::*;
+use crate::sp::sp;
 use dashu_int::IBig;
 use poulpy_core::{
     EncryptionLayout, GLWEMulConst, GLWEMulPlain, GLWETensorKeyEncryptSk, GLWETensoring,
@@ -254,7 +255,10 @@ fn common(c: &Case, tol_units: f64, e: f64, bound: f64) -> (bool, Vec<&'static s
 
 pub const LIN_OPS: [&str; 4] = ["glwe_mul_const", "glwe_mul_const_assign", "glwe_mul_plain", "glwe_mul_plain_assign"];
 
-fn run_lin<B: FullBackend>(m: &Module<B>, c: &Case) -> Verdict {
+fn run_lin<B: FullBackend>(m: &Module<B>, c: &Case) -> Verdict
+where
+    poulpy_hal::layouts::Scratch<B>: poulpy_hal::api::ScratchFromBytes<B>,
+{
     let n = m.n();
     let mut scratch = pzv_be::dirty_scratch::<B>(SCRATCH);
     let op = (c.op % 4) as usize;
@@ -343,7 +347,10 @@ fn tensor_tol(c: &Case, mn: usize, mono: &[Vec<i64>], cols: usize, n: usize, rl:
     t * rl.unit()
 }
 
-fn run_tensor<B: FullBackend>(m: &Module<B>, c: &Case) -> Verdict {
+fn run_tensor<B: FullBackend>(m: &Module<B>, c: &Case) -> Verdict
+where
+    poulpy_hal::layouts::Scratch<B>: poulpy_hal::api::ScratchFromBytes<B>,
+{
     let n = m.n();
     let mut scratch = pzv_be::dirty_scratch::<B>(SCRATCH);
     let op = (c.op % 3) as usize;
@@ -434,7 +441,10 @@ fn run_tensor<B: FullBackend>(m: &Module<B>, c: &Case) -> Verdict {
 
 pub type TkP<B> = GLWETensorKeyPrepared<DeviceBuf<B>, B>;
 
-pub fn build_tk<B: FullBackend>(m: &Module<B>, c: &Case, sk: &GLWESecret<Vec<u8>>, scratch: &mut ScratchOwned<B>) -> Result<(TkP<B>, KeyMeta), String> {
+pub fn build_tk<B: FullBackend>(m: &Module<B>, c: &Case, sk: &GLWESecret<Vec<u8>>, scratch: &mut ScratchOwned<B>) -> Result<(TkP<B>, KeyMeta), String>
+where
+    poulpy_hal::layouts::Scratch<B>: poulpy_hal::api::ScratchFromBytes<B>,
+{
     let n = m.n();
     let r = c.rank as usize;
     let k = c.key_size() * c.kb as usize;
@@ -464,11 +474,14 @@ pub fn build_tk<B: FullBackend>(m: &Module<B>, c: &Case, sk: &GLWESecret<Vec<u8>
     }
     let meta = key_meta(&cells, c.kb as usize, c.dnum as usize, c.dsize as usize, pairs, r, &s, &pts, &ni)?;
     let mut prep = m.alloc_tensor_key_prepared_from_infos(&key);
-    m.prepare_tensor_key(&mut prep, &key, scratch.borrow());
+    m.prepare_tensor_key(&mut prep, &key, sp("prepare_tensor_key", m.prepare_tensor_key_tmp_bytes(&key), scratch));
     Ok((prep, meta))
 }
 
-fn run_relin<B: FullBackend>(m: &Module<B>, c: &Case) -> Verdict {
+fn run_relin<B: FullBackend>(m: &Module<B>, c: &Case) -> Verdict
+where
+    poulpy_hal::layouts::Scratch<B>: poulpy_hal::api::ScratchFromBytes<B>,
+{
     let n = m.n();
     let mut scratch = pzv_be::dirty_scratch::<B>(SCRATCH);
     let opn = "glwe_tensor_relinearize";
